@@ -118,8 +118,8 @@ func (d *Decoder) decodeOBUs(pkt *rtp.Packet) ([][]byte, error) {
 
 		d.fragmentsSize += len(obus[0])
 
-		if d.fragmentsSize > av1.MaxTemporalUnitSize {
-			errSize := d.fragmentsSize
+		if (d.frameBufferSize + d.fragmentsSize) > av1.MaxTemporalUnitSize {
+			errSize := d.frameBufferSize + d.fragmentsSize
 			d.resetFragments()
 			return nil, fmt.Errorf("temporal unit size (%d) is too big, maximum is %d",
 				errSize, av1.MaxTemporalUnitSize)
